@@ -13,6 +13,9 @@ BUILT = {
  "C09": ("stateful property-based testing with a counting global allocator as oracle",
          "Same generated histories; every process_into_buffer, setter, reset and getter call is bracketed by reads of a per-thread allocator counter (alloc, dealloc, realloc, alloc_zeroed); any traffic is a violation. Exploration level.",
          "allocator traffic is observed on the calling thread; rubato spawns no threads; `log` feature off"),
+ "C10": ("stateful property-based testing, differential twin (used-then-reset instance vs freshly constructed instance), bit-exact comparison",
+         "Generated dirty prefixes (ratio changes incl. pending ramps, chunk changes, masks, partial and failed calls), reset(), then a generated suffix on the reset instance and on a fresh twin fed identical samples: all getters and every returned count and output sample must be bit-identical. Ratios are biased to values where chunk/ratio is an integer up to rounding. Exploration level.",
+         "prefix histories stay in the benign envelope (DESIGN §6)"),
  "C12": ("property-based testing of the setters against a reference predicate, boundary/ulp-neighbour generators, differential twin",
          "Generated (original, max) pairs and control calls with arguments at the documented bounds, their ulp neighbours, interior/far/special values through both ratio setters, and boundary chunk sizes; accept/reject is compared with the documented predicate evaluated in f64, rejected calls must leave the instance indistinguishable from a twin, accepted relative calls must equal the accepted absolute call. Exploration level.",
          "the documented bounds are original/max, original*max (1/max, max for the relative setter) as a caller computes them in f64"),
